@@ -30,7 +30,6 @@ type evaluator struct {
 	perms [][]int
 	qa    []*rs.QueueAttributes
 	maps  []map[common_info.QueueID]*rs.QueueAttributes // one per insertion order, built once
-	seed  int
 	evals int64
 }
 
@@ -39,7 +38,7 @@ var baseTime = time.Date(2024, 1, 1, 0, 0, 0, 0, time.UTC)
 func qid(i int) common_info.QueueID { return common_info.QueueID(fmt.Sprintf("q%d", i)) }
 
 func newEvaluator(n int) *evaluator {
-	e := &evaluator{n: n, perms: permutations(n), seed: -1}
+	e := &evaluator{n: n, perms: permutations(n)}
 	for i := 0; i < n; i++ {
 		e.qa = append(e.qa, &rs.QueueAttributes{UID: qid(i), Name: string(qid(i))})
 	}
@@ -83,7 +82,6 @@ func (e *evaluator) probeMapOrder() error {
 		}
 	}
 	maporder.Set(0)
-	e.seed = 0
 	return nil
 }
 
@@ -115,10 +113,7 @@ func (e *evaluator) eval(total, k float64, qs []QP, o order, out Shares) {
 			},
 		}
 	}
-	if e.seed != o.Seed {
-		maporder.Set(uint64(o.Seed))
-		e.seed = o.Seed
-	}
+	maporder.Set(uint64(o.Seed)) // global state, other code (tree blocks) also sets it: never cache
 	tot := rs.NewResourceQuantities(total*resScale[1], total*resScale[2], total*resScale[0])
 	resource_division.SetResourcesShare(tot, k, e.maps[o.Perm])
 	e.evals++
